@@ -6,7 +6,7 @@ from verifkit import gen, wiregen as W, disp
 ID = "C19"
 THM_MODULES = ["Minicbor.Thm.C19"]
 P = "Minicbor.C19."
-REQUIRED = [P + n for n in """display_examples""".split()]
+REQUIRED = [P + n for n in """display_total display_examples""".split()]
 PACKAGES = ["hcore"]
 K, K0 = 16, 256
 TREES = {}
